@@ -13,6 +13,7 @@ import Bubus.Proofs.NoSkip
 import Bubus.Proofs.RunLoop
 import Bubus.Proofs.Expect
 import Bubus.Proofs.Wal
+import Bubus.Proofs.Finished
 namespace Bubus.Examples
 open Bubus
 
@@ -130,5 +131,14 @@ def walRun : List Label :=
 
 example : ((run {} walRun).map fun w => ((w.bus 0).walLines, (w.bus 0).taken, (w.bus 0).enq)) = some ([0], [0], [0]) := by
   decide
+
+/-- non-vacuity of the C10 / C11 invariant on recorded outcomes: at the end of `complete` both instances are finished and
+    their results terminal; at the end of `timeoutRun` the recorded outcomes include a timeout and a cancellation -/
+example : ((run {} complete).map fun w => ((w.inst 0).st, (w.inst 1).st, (w.ev 0).results.map (·.terminal), (w.ev 1).results.map (·.terminal))) =
+    some (.finished, .finished, [true], [true]) := by decide
+
+example : ((run {} timeoutRun).map fun w =>
+      ((List.range w.ni).all fun i => (w.inst i).st == .finished,
+       (List.range w.ne).all fun e => (w.ev e).results.all (·.terminal))) = some (true, true) := by decide +kernel
 
 end Bubus.Examples
